@@ -59,6 +59,7 @@ props! {
     "C17" => c17,
     "C18" => c18,
     "C19" => c19,
+    "C20" => c20,
     "C21" => c21,
     "C22" => c22,
     "C23" => c23,
